@@ -70,6 +70,8 @@ structure St where
   unsynced : List String := []
   /-- do not report the recorded finding `ServerMatchesObjects/reissue-without-sync` -/
   tolerant : Bool := false
+  /-- evaluate only the oracle predicates of this property ("" = all) -/
+  prop : String := ""
 deriving Inhabited
 
 def getCa (st : St) (h : String) : CaM := ((st.cas.find? (·.1 == h)).map (·.2)).getD {}
@@ -125,14 +127,14 @@ def issueInOf (t : Timing) (o : SetO) : IssueIn :=
 def findSetO (post : List (Nat × ClassO)) (rcn crl : Nat) : Option SetO :=
   ((get? post rcn).map (·.sets)).bind fun l => l.find? (·.crlName == crl)
 
-def newSetFor (t : Timing) (post : List (Nat × ClassO)) (rcn : Nat) (keyJ : Json) : KeyObjectSet :=
+def newSetFor (t : Timing) (post : List (Nat × ClassO)) (rcn : Nat) (keyJ : Json) : NewKey :=
   let kid := jstr (jget keyJ "key_id")
   let base := enc (jstr (jpath keyJ ["incoming_cert", "ca_repository"]))
   let crl := enc (kid ++ ".crl")
   let i := ((findSetO post rcn crl).map (issueInOf t)).getD { now := 300 }
   -- the set may have been re-issued since its creation: creation time inputs are those of the
   -- first issue; only number 1 sets are compared on them
-  KeyObjectSet.create base crl (enc (kid ++ ".mft")) t i
+  { base, crlName := crl, mftName := enc (kid ++ ".mft"), i }
 
 /-- Translate one stored event. `prevCa`/`postCa`: the CA's serialised state before/after the op. -/
 def toObjEvent (t : Timing) (prevCa postCa : Json) (post : List (Nat × ClassO)) (now : Nat) (e : Json) : ObjEvent :=
@@ -186,7 +188,7 @@ def mkIns (t : Timing) (o : CaObjects) (post : List (Nat × ClassO)) : IssueInpu
 /-- One command's pre-save listener on the model (`preSave` with inputs chosen after the events). -/
 def preSaveStep (t : Timing) (o : CaObjects) (evs : List ObjEvent) (now : Nat) (post : List (Nat × ClassO)) :
     Option (CaObjects × Bool) :=
-  match applyEvents o evs with
+  match applyEvents t o evs with
   | none => none
   | some (o', force) => some (reIssue o' force now t (mkIns t o' post))
 
